@@ -13,8 +13,8 @@ KEYS = ['"k1"', '"k2"']
 
 
 def mc_consts(**kw):
-    c = {"Keys": KEYS, "MaxT": 2, "Vals": {0, 1}, "MaxFiles": 3, "MaxBatch": 1, "MaxWrites": 2, "MaxSnaps": 1,
-         "MaxCompacts": 1, "MaxDeletes": 1, "MaxReopens": 1, "MaxFails": 1}
+    c = {"Keys": KEYS, "MaxT": 1, "Vals": {0, 1}, "MaxFiles": 3, "MaxBatch": 1, "MaxWrites": 2, "MaxSnaps": 1,
+         "MaxCompacts": 1, "MaxDeletes": 1, "MaxReopens": 0, "MaxFails": 1}
     c.update(kw)
     return c
 
@@ -28,24 +28,33 @@ PROPS = "PROPERTIES C02_IdempotentRewrite C09_ContentPreserved"
 
 
 def model_check(ctx, sd):
-    """Exhaustive TLC runs of the read model (one config per family, every growing value bounded)."""
+    """Exhaustive TLC runs of the read model (one config per family, every growing value bounded).
+    Sizes: the quick configs generate ~1e5 states each (10-20 s on an idle machine, 2 min when the
+    machine is shared with a dozen other checks)."""
     inv = ["TypeOK", "C02_ReadIsLww"]
-    # A: two keys, single-point batches, every action once or twice
+    one = ['"k1"']
+    # A: two keys, single-point batches, write/snapshot/compact/delete/failed snapshot or compaction
     ctx.write_cfg(sd, "MCA.cfg", "Spec", mc_consts(), inv, "Bounded", extra=PROPS)
-    ctx.tlc_check(sd, "TSMRead", "MCA.cfg", workers=8, timeout=900, coverage=not ctx.quick())
-    # B: one key, batches with duplicate / out-of-order timestamps, two snapshots (three layers + two files)
-    ctx.write_cfg(sd, "MCB.cfg", "Spec", mc_consts(Keys=['"k1"'], MaxT=1, MaxBatch=2, MaxWrites=3, MaxSnaps=2, MaxDeletes=1,
-                                                   MaxCompacts=1, MaxReopens=1, MaxFails=1), inv, "Bounded", extra=PROPS)
-    ctx.tlc_check(sd, "TSMRead", "MCB.cfg", workers=8, timeout=900)
+    ctx.tlc_check(sd, "TSMRead", "MCA.cfg", workers=8, timeout=1200, coverage=not ctx.quick())
+    # B: one key, batches with duplicate / out-of-order timestamps, two snapshots (two files or file +
+    # snapshot in flight + hot store), reopen
+    ctx.write_cfg(sd, "MCB.cfg", "Spec", mc_consts(Keys=one, MaxBatch=2, MaxSnaps=2, MaxDeletes=0, MaxReopens=1), inv, "Bounded", extra=PROPS)
+    ctx.tlc_check(sd, "TSMRead", "MCB.cfg", workers=8, timeout=1200)
     # non-vacuity: files + in-flight snapshot + hot store at once must be reachable
-    ctx.write_cfg(sd, "MCV.cfg", "Spec", mc_consts(Keys=['"k1"'], MaxT=1, MaxBatch=1, MaxWrites=3, MaxSnaps=3, MaxDeletes=0,
-                                                   MaxCompacts=0, MaxReopens=0, MaxFails=0), ["NeverThreeLayers"], "Bounded")
-    r = ctx.tlc_check(sd, "TSMRead", "MCV.cfg", workers=4, timeout=600, expect_ok=False)
+    ctx.write_cfg(sd, "MCV.cfg", "Spec", mc_consts(Keys=one, MaxWrites=3, MaxSnaps=3, MaxDeletes=0, MaxCompacts=0, MaxFails=0),
+                  ["NeverThreeLayers"], "Bounded")
+    r = ctx.tlc_check(sd, "TSMRead", "MCV.cfg", workers=2, timeout=600, expect_ok=False)
     if r["ok"]:
         raise Infra("vacuity: the three-layer state (2 files + snapshot in flight + hot store) is unreachable in TSMRead")
     if not ctx.quick():
-        ctx.write_cfg(sd, "MCC.cfg", "Spec", mc_consts(MaxWrites=3, MaxSnaps=2), inv, "Bounded", extra=PROPS)
-        ctx.tlc_check(sd, "TSMRead", "MCC.cfg", workers=8, timeout=1500)
+        # the counter-based step classification used by the action properties agrees with the action definitions
+        ctx.write_cfg(sd, "MCK.cfg", "Spec", mc_consts(Keys=one), ["TypeOK"], "Bounded",
+                      extra="PROPERTIES StepKindsAgree IdenticalLeavesAcked")
+        ctx.tlc_check(sd, "TSMRead", "MCK.cfg", workers=4, timeout=1200)
+        ctx.write_cfg(sd, "MCC.cfg", "Spec", mc_consts(MaxT=2, MaxReopens=1), inv, "Bounded", extra=PROPS)
+        ctx.tlc_check(sd, "TSMRead", "MCC.cfg", workers=8, timeout=2400)
+        ctx.write_cfg(sd, "MCD.cfg", "Spec", mc_consts(Keys=one, MaxBatch=2, MaxWrites=3, MaxSnaps=2, MaxReopens=1), inv, "Bounded", extra=PROPS)
+        ctx.tlc_check(sd, "TSMRead", "MCD.cfg", workers=8, timeout=2400)
 
 
 def run(ctx):
@@ -55,7 +64,7 @@ def run(ctx):
 
     # ---- behaviours -> real shard
     gl = 16
-    num = ctx.pick(260, 2500)
+    num = ctx.pick(180, 2400)
     scaled = ctx.pick(0, 45)
     if ctx.replay:
         rp = json.load(open(ctx.replay))["replay"]
@@ -99,16 +108,28 @@ def run_types(ctx, rp):
     """FieldTypes: exhaustive model check + exhaustive behaviours replayed through Shard.WritePoints."""
     sd = ctx.spec_dir("fieldtypes")
     if rp is None:
-        c = {"Fields": ['"f"', '"g"'], "Types": ['"float"', '"integer"', '"string"'], "Series": ['"s1"', '"s2"'], "MaxBatch": 2,
-             "MaxWrites": 2, "MaxT": 1, "MaxDrops": 1, "MaxReopens": 1}
-        ctx.write_cfg(sd, "MC.cfg", "Spec", c, ["TypeOK", "C02_OneTypePerField", "C02_ConflictRejectedOnlyThatPoint", "C02_PartialWriteReported"], "Bounded")
-        ctx.tlc_check(sd, "FieldTypes", "MC.cfg", workers=8, timeout=900, coverage=not ctx.quick())
+        inv = ["TypeOK", "C02_OneTypePerField", "C02_ConflictRejectedOnlyThatPoint", "C02_PartialWriteReported"]
+        c = {"Fields": ['"f"', '"g"'], "Types": ['"float"', '"integer"'], "Series": ['"s1"'], "MaxBatch": 2,
+             "MaxWrites": 2, "MaxT": 0, "MaxV": 0, "MaxDrops": 1, "MaxReopens": 1}
+        ctx.write_cfg(sd, "MC1.cfg", "Spec", c, inv, "Bounded")
+        ctx.tlc_check(sd, "FieldTypes", "MC1.cfg", workers=8, timeout=1200, coverage=not ctx.quick())
+        c2 = dict(c, Series=['"s1"', '"s2"'], MaxBatch=1, MaxWrites=2, MaxDrops=2)
+        ctx.write_cfg(sd, "MC2.cfg", "Spec", c2, inv, "Bounded")
+        ctx.tlc_check(sd, "FieldTypes", "MC2.cfg", workers=8, timeout=1200)
+        if not ctx.quick():
+            c3 = dict(c, Series=['"s1"', '"s2"'], Types=['"float"', '"integer"', '"string"'], MaxBatch=2, MaxWrites=2, MaxDrops=1)
+            ctx.write_cfg(sd, "MC3.cfg", "Spec", c3, inv, "Bounded")
+            ctx.tlc_check(sd, "FieldTypes", "MC3.cfg", workers=8, timeout=2400)
         gl = ctx.pick(7, 9)
         gc = {"Fields": ['"f"', '"g"'], "Types": ['"float"', '"integer"', '"unsigned"', '"string"', '"boolean"'], "Series": ['"s1"', '"s2"'],
-              "MaxBatch": 4, "MaxWrites": 99, "MaxT": 2, "MaxDrops": 99, "MaxReopens": 99, "GenLen": gl}
-        ctx.write_cfg(sd, "Gen.cfg", "GSpec", gc, extra="INVARIANT Emit")
-        num = ctx.pick(250, 2500)
-        behs = ctx.tlc_generate(sd, "FieldTypesGen", "Gen.cfg", num=num, depth=gl + 1, timeout=900)[:num]
+              "MaxBatch": 4, "MaxWrites": 99, "MaxT": 2, "MaxV": 1, "MaxDrops": 99, "MaxReopens": 99, "GenLen": gl, "IntraBatch": False}
+        num = ctx.pick(160, 2000)
+        # strict batches: points agree about the type of a field that does not exist yet (the conflicts are
+        # with types the fields already have); intra batches: they may disagree (first point wins)
+        ctx.write_cfg(sd, "GenS.cfg", "GSpec", gc, extra="INVARIANT Emit")
+        behs = ctx.tlc_generate(sd, "FieldTypesGen", "GenS.cfg", num=num, depth=gl + 1, timeout=900)[:num]
+        ctx.write_cfg(sd, "GenI.cfg", "GSpec", dict(gc, IntraBatch=True), extra="INVARIANT Emit")
+        behs += ctx.tlc_generate(sd, "FieldTypesGen", "GenI.cfg", num=num // 3, depth=gl + 1, seed=ctx.seed + 500, timeout=900)[:num // 3]
         inp = {"behaviours": behs}
     else:
         inp = {"behaviours": [rp["behaviour"]], "index": rp.get("index", "")}
